@@ -1288,11 +1288,15 @@ public:
       // The sandbox representation of a pointer may be an integer, so the
       // conversion below would not notice pointers of incompatible types, nor
       // a pointer stored in a field that is not a pointer
-      using T_RhsRaw = detail::rlbox_remove_wrapper_t<std::remove_cv_t<T_Rhs>>;
+      // (for arrays of pointers, the elements)
+      using T_El = std::remove_all_extents_t<T>;
+      using T_RhsRawEl = std::remove_all_extents_t<
+        detail::rlbox_remove_wrapper_t<std::remove_cv_t<T_Rhs>>>;
       if_constexpr_named(
         subcond2,
-        (std::is_pointer_v<T> || std::is_pointer_v<T_RhsRaw>) &&
-          !(std::is_pointer_v<T> && std::is_assignable_v<T&, T_RhsRaw>))
+        (std::is_pointer_v<T_El> || std::is_pointer_v<T_RhsRawEl>) &&
+          !(std::is_pointer_v<T_El> &&
+            std::is_assignable_v<T_El&, T_RhsRawEl>))
       {
         rlbox_detail_static_fail_because(
           cond2 && subcond2,
